@@ -1,7 +1,7 @@
 (* C18 — Adam7 geometry is exact for every image size. Statements only. *)
 From OxiVerif Require Import Base.Common Spec.Adam7 Model.Types Model.Headers Model.ScanLines Model.Interlace
   Proofs.ScanProofs Proofs.InterlaceProofs Proofs.HeaderProofs Proofs.Adam7RoundTrip.
-From OxiVerif Require Import Spec.Sem Proofs.Bridge Proofs.LiftColor Proofs.LiftInterlace.
+From OxiVerif Require Import Spec.Sem Proofs.Bridge Proofs.LiftColor Proofs.LiftInterlace Proofs.DeinterlaceCore Proofs.DeinterlaceStep Proofs.DeinterlaceLink Proofs.LiftDeinterlace.
 
 (* The scan-line iterator emits exactly the pass sizes and row lengths the specification
    prescribes (empty passes omitted), for every width, height >= 1 and every pixel size >= 1 bit *)
@@ -76,6 +76,34 @@ Theorem C18_interlace_image_meaning : forall img img' pic, wf img -> interlaced 
   interlace_image img = Ok img' -> sem img = Some pic -> sem img' = Some pic /\ wf img'.
 Proof. exact interlace_image_sem. Qed.
 Print Assumptions C18_interlace_image_meaning.
+
+(* THE DE-INTERLACING STATE MACHINE (deinterlace_image: current pass, current row, increment_pass skipping empty passes, the
+   per-line scatter with x_shift/x_step) computes the specification's de-interlacing of the pass lines it is fed, for every
+   width and height and any pixel type; `limit` = the bits variant, which cuts each line to its pixel count *)
+Theorem C18_deinterlace_is_spec : forall (A : Type) (blank : A) (w h : Z) (limit : bool) (blk : Z -> list (list A)),
+  1 <= w -> 1 <= h ->
+  (forall p, In p passes7 -> active w h p -> length (blk p) = Z.to_nat (ph h p) /\ Forall (line_ok w limit p) (blk p)) ->
+  (forall p, In p passes7 -> ~ active w h p -> blk p = []) ->
+  exists G, model_deinterlace blank w h limit (flat_map blk passes7) = Ok G /\
+    spec_deinterlace w h (map (fun p => map (eff w limit p) (blk p)) passes7) = Some G /\
+    length G = Z.to_nat h /\ Forall (fun r => length r = Z.to_nat w) G.
+Proof. intros A blank w h limit blk Hw Hh H1 H0. exact (model_deinterlace_is_spec blank w h limit Hw Hh blk H1 H0). Qed.
+Print Assumptions C18_deinterlace_is_spec.
+
+(* increment_pass goes to the next pass that has pixels, or reports the end *)
+Theorem C18_increment_pass : forall w h p, 1 <= w -> 1 <= h -> In p passes7 ->
+  match increment_pass p w h with
+  | Some p' => In p' passes7 /\ p < p' /\ active w h p' /\ (forall q, p < q < p' -> ~ active w h q)
+  | None => forall q, In q passes7 -> p < q -> ~ active w h q
+  end.
+Proof. exact increment_pass_spec. Qed.
+Print Assumptions C18_increment_pass.
+
+(* WHOLE IMAGES, the other direction: deinterlace_image gives an image that means the same picture *)
+Theorem C18_deinterlace_image_meaning : forall img img' pic, wf img -> interlaced (hdr img) = true ->
+  deinterlace_image img = Ok img' -> sem img = Some pic -> sem img' = Some pic /\ wf img'.
+Proof. exact deinterlace_image_sem. Qed.
+Print Assumptions C18_deinterlace_image_meaning.
 
 (* non-vacuity *)
 Example C18_example : spec_lines 5 3 = [(1, 1); (2, 1); (4, 1); (5, 3); (6, 2); (6, 2); (7, 5)].
